@@ -66,7 +66,9 @@ class Gen:
         rng = self.rng
         n = rng.choice([1, 2, 2, 3, 3, 4])
         style = "list" if rng.random() < 0.25 else "dict"
-        names = rng.sample(["g", "h", "lens", "src", "x", "y", "m_1", "bulge", "a", "weight_map"], n)
+        if style == "list" and depth == 0 and rng.random() < 0.15:
+            n = rng.choice([11, 12])          # keys "10", "11": numeric vs string order of collection items
+        names = rng.sample(["g", "h", "lens", "src", "x", "y", "m_1", "bulge", "a", "weight_map"], min(n, 10))
         ms = []
         for i in range(n):
             r = rng.random()
@@ -135,7 +137,7 @@ def rand_float(rng, allow_inf=False):
 
 
 def gen_rows(rng, npri, thorough):
-    n = rng.choice([1, 1, 2, 3, 3, 4, 5, 6, 8] + ([12, 20] if thorough else []))
+    n = rng.choice([1, 1, 2, 3, 3, 4, 5, 6, 8, 8, 13, 30] + ([60, 120] if thorough else []))
     mode = rng.random()
     zeros = rng.random() < 0.15          # parameter values equal to +-0.0 only in some cases
     rows = []
@@ -230,20 +232,25 @@ def shape_labels(c):
     return labels
 
 
-def failure_classes(c, route):
-    """known-finding classes: shape label x route family (the text formats share Sample.__init__'s key handling)"""
+def reserved_names(c):
+    return [p[0] for p in py_unique_paths(c["tree"]) if len(p) == 1 and p[0] in NOT_KWARGS]
+
+
+def failure_classes(c, route, part, msg):
+    """known-finding classes, each as narrow as the recorded defect:
+    part = what failed ("exc:<Name>" load/lookup exception, "values", "samples", "vectors", "stale-first", ...)"""
     labels = shape_labels(c)
-    fam = "text" if route in TEXT_ROUTES else route
     out = []
-    if "reserved-name" in labels and route in ("csv", "agg", "fit"):
+    # a parameter column named like a reserved column: only the load / lookup exception that names the colliding key
+    if "reserved-name" in labels and route in ("csv", "agg", "fit", "resave", "scrape") \
+            and part in ("exc:KeyError", "exc:TypeError") \
+            and any(("'%s'" % n) in msg or "multiple values" in msg for n in reserved_names(c)):
         out.append("reserved-name:table")
-    if "mixed-depth" in labels and fam == "text":
-        out.append("mixed-depth:text")
-    if "zero-value" in labels and route in ("summary", "summary_agg"):
-        out.append("zero-value:summary")
-    if "creation-order-differs" in labels and route == "summary_agg":
+    # positional error vectors read against a model re-created from model.json: only the vectors
+    if "creation-order-differs" in labels and route in ("summary_agg", "scrape_summary") and part == "vectors":
         out.append("recreated-order:summary_agg")
-    if c.get("kind") == "dbseq":
+    # second save after a commit: only "the first samples are still returned"
+    if c.get("kind") == "dbseq" and part == "stale-first":
         out.append("db-resave-after-commit")
     return out
 
@@ -262,6 +269,15 @@ def gen_cases(ctx):
         if rng.random() < 0.3:
             c["cls"] = "nest"
             c["logz"] = hx(rand_float(rng))
+        r = rng.random()
+        if r < 0.25:
+            c["numpy"] = "scalar"
+        elif r < 0.4:
+            c["numpy"] = "array"
+        if rng.random() < 0.1:
+            # the best row carries an exact zero (the only place where a dropped zero shows in the summary)
+            k = first_argmax([unhex(x["ll"]) for x in c["rows"]])
+            c["rows"][k]["p"][rng.randrange(npri)] = hx(rng.choice([0.0, -0.0]))
         cases.append(c)
     for _ in range(6 if not thorough else 40):
         tree, npri = g.tree()
@@ -273,7 +289,7 @@ def gen_cases(ctx):
     for _ in range(6 if not thorough else 36):
         tree, npri = g.tree()
         cases.append({"kind": "fit", "tree": tree, "npri": npri, "kinds": [rng.choice("ug")],
-                      "draws": rng.randint(2, 6), "targets": [hx(rng.uniform(0, 1)) for _ in range(12)],
+                      "rng": rng.getrandbits(31), "draws": rng.randint(2, 6), "targets": [hx(rng.uniform(0, 1)) for _ in range(12)],
                       "csv": rng.random() < 0.75})
     return cases
 
@@ -307,58 +323,92 @@ def rows_by_col(v):
     return [dict(zip(cols, row)) for row in pl]
 
 
+def exc_part(v, name):
+    x = v.get(name)
+    return "exc:%s" % x["exc"] if isinstance(x, dict) and "exc" in x else None
+
+
 def compare_view(orig, got, what, stats=True):
-    """every observable of the loaded samples equals the one of the samples that were persisted"""
+    """every observable of the loaded samples equals the one of the samples that were persisted.
+    Returns None or (part, message)."""
     if "load" in got:
-        return "%s: loading raised %s" % (what, exc_of(got, "load"))
+        return exc_part(got, "load"), "%s: loading raised %s" % (what, exc_of(got, "load"))
     for name in ("samples", "pl", "ll", "lp", "w", "best", "inst", "info") + (("median", "v1", "e1", "e3") if stats else ()):
         e = exc_of(got, name)
         if e and not exc_of(orig, name):
-            return "%s: %s raised %s" % (what, name, e)
+            return exc_part(got, name), "%s: %s raised %s" % (what, name, e)
     for name in ("ll", "lp", "w"):
         if ok(got, name) != ok(orig, name):
-            return "%s: %s differ: %s vs %s" % (what, name, ok(got, name), ok(orig, name))
+            return "values", "%s: %s differ: %s vs %s" % (what, name, ok(got, name), ok(orig, name))
     if rows_by_col(got) != rows_by_col(orig):
-        return "%s: parameter value per path differs: %s vs %s" % (what, rows_by_col(got), rows_by_col(orig))
+        return "values", "%s: parameter value per path differs: %s vs %s" % (what, rows_by_col(got), rows_by_col(orig))
     if by_col(got, "best") != by_col(orig, "best"):
-        return "%s: best-fit vector differs" % what
+        return "values", "%s: best-fit vector differs" % what
     a, b = ok(got, "inst"), ok(orig, "inst")
     if (a is None) != (b is None) or (a is not None and dict(map(tuple, a)) != dict(map(tuple, b))):
-        return "%s: best-fit instance differs: %s vs %s" % (what, a, b)
+        return "values", "%s: best-fit instance differs: %s vs %s" % (what, a, b)
     if stats:
         for name in ("median", "v1", "e1", "e3"):
             if by_col(got, name) != by_col(orig, name):
-                return "%s: %s differ: %s vs %s" % (what, name, by_col(got, name), by_col(orig, name))
+                return "values", "%s: %s differ: %s vs %s" % (what, name, by_col(got, name), by_col(orig, name))
     gi, oi = ok(got, "info"), ok(orig, "info")
     if gi != oi:
-        return "%s: samples_info differs: %s vs %s" % (what, gi, oi)
+        return "info", "%s: samples_info differs: %s vs %s" % (what, gi, oi)
     if got.get("cls") != orig.get("cls"):
-        return "%s: class %s vs %s" % (what, got.get("cls"), orig.get("cls"))
+        return "info", "%s: class %s vs %s" % (what, got.get("cls"), orig.get("cls"))
     return None
 
 
 def compare_summary(orig, got, what):
+    """Returns a list of (part, message): part "samples" = the two persisted samples, their vectors, instance and
+    evidence; part "vectors" = the positional error / value vectors."""
     if "load" in got:
-        return "%s: loading raised %s" % (what, exc_of(got, "load"))
-    for name in ("max", "vmax", "inst", "med", "vmed", "e1", "e3", "v1", "v3", "logz"):
-        e = exc_of(got, name)
-        if e and not exc_of(orig, name):
-            return "%s: %s raised %s" % (what, name, e)
-    for name in ("max", "med"):
-        a, b = ok(got, name), ok(orig, name)
-        if a is None or b is None:
-            continue
-        if (a["ll"], a["lp"], a["w"]) != (b["ll"], b["lp"], b["w"]):
-            return "%s: %s sample ll/lp/weight differ" % (what, name)
-    for name in ("vmax", "vmed", "e1", "e3", "v1", "v3"):
-        if by_col(got, name) != by_col(orig, name):
-            return "%s: %s differ: %s vs %s" % (what, name, by_col(got, name), by_col(orig, name))
-    a, b = ok(got, "inst"), ok(orig, "inst")
-    if (a is None) != (b is None) or (a is not None and dict(map(tuple, a)) != dict(map(tuple, b))):
-        return "%s: best-fit instance differs" % what
-    if ok(got, "logz") != ok(orig, "logz"):
-        return "%s: log evidence differs" % what
-    return None
+        return [(exc_part(got, "load"), "%s: loading raised %s" % (what, exc_of(got, "load")))]
+    out = []
+
+    def samples_part():
+        for name in ("max", "vmax", "inst", "med", "vmed", "logz"):
+            e = exc_of(got, name)
+            if e and not exc_of(orig, name):
+                return exc_part(got, name), "%s: %s raised %s" % (what, name, e)
+        for name in ("max", "med"):
+            a, b = ok(got, name), ok(orig, name)
+            if (a is None) != (b is None):
+                return "samples", "%s: %s sample missing" % (what, name)
+            if a is not None and (a["ll"], a["lp"], a["w"]) != (b["ll"], b["lp"], b["w"]):
+                return "samples", "%s: %s sample ll/lp/weight differ" % (what, name)
+            if a is not None and sorted((json.dumps(k), v) for k, v in a["kw"] if v is not None) != \
+                    sorted((json.dumps(k), v) for k, v in b["kw"]):
+                # keys are paths in both (tuple keys); values bit-exact
+                ka = {".".join(k.get("t", [k.get("s")])): v for k, v in a["kw"]}
+                kb = {".".join(k.get("t", [k.get("s")])): v for k, v in b["kw"]}
+                if ka != kb:
+                    return "samples", "%s: %s sample values differ: %s vs %s" % (what, name, ka, kb)
+        for name in ("vmax", "vmed"):
+            if by_col(got, name) != by_col(orig, name):
+                return "samples", "%s: %s differ: %s vs %s" % (what, name, by_col(got, name), by_col(orig, name))
+        a, b = ok(got, "inst"), ok(orig, "inst")
+        if (a is None) != (b is None) or (a is not None and dict(map(tuple, a)) != dict(map(tuple, b))):
+            return "samples", "%s: best-fit instance differs" % what
+        if ok(got, "logz") != ok(orig, "logz"):
+            return "samples", "%s: log evidence differs" % what
+        return None
+
+    def vectors_part():
+        for name in ("e1", "e3", "v1", "v3"):
+            e = exc_of(got, name)
+            if e and not exc_of(orig, name):
+                return exc_part(got, name), "%s: %s raised %s" % (what, name, e)
+        for name in ("e1", "e3", "v1", "v3"):
+            if by_col(got, name) != by_col(orig, name):
+                return "vectors", "%s: %s differ: %s vs %s" % (what, name, by_col(got, name), by_col(orig, name))
+        return None
+
+    for f in (samples_part, vectors_part):
+        m = f()
+        if m:
+            out.append(m)
+    return out
 
 
 def first_argmax(xs):
@@ -369,8 +419,45 @@ def first_argmax(xs):
     return best
 
 
+def text_is(text, x):
+    """the decimal text denotes a number that rounds to the binary64 x (exact rational arithmetic, no float parser)"""
+    from decimal import Decimal, InvalidOperation
+    from fractions import Fraction
+    if math.isinf(x) or math.isnan(x):
+        return text.lower().lstrip("+") in (("inf", "infinity") if x > 0 else ("-inf", "-infinity")) if math.isinf(x) else text.lower() == "nan"
+    try:
+        q = Fraction(Decimal(text))
+    except (InvalidOperation, ValueError):
+        return False
+    if x == 0.0:
+        return q == 0 and text.strip().startswith("-") == (math.copysign(1.0, x) < 0)
+    lo, hi = math.nextafter(x, -math.inf), math.nextafter(x, math.inf)
+    flo = Fraction(lo) if not math.isinf(lo) else Fraction(x) - (Fraction(hi) - Fraction(x))
+    fhi = Fraction(hi) if not math.isinf(hi) else Fraction(x) + (Fraction(x) - Fraction(lo))
+    return (flo + Fraction(x)) / 2 <= q <= (Fraction(x) + fhi) / 2
+
+
+def latent_expected(c, r):
+    """latent variables of every row, from the case alone: first / last parameter in walk order, twice the first"""
+    ws = r["shape"]["ws"]                     # sorted by creation rank; walk order = model.paths order = the same list
+    first_pid, last_pid = ws[0][1], ws[-1][1]
+    pids = sorted({pid for _, pid in ws})
+    out = []
+    for row in c["rows"]:
+        vals = {pid: unhex(v) for pid, v in zip(pids, row["p"])}
+        a, b = vals[first_pid], vals[last_pid]
+        out.append({"ll": hx(unhex(row["ll"])), "lp": hx(unhex(row["lp"])), "w": hx(unhex(row["w"])),
+                    "kw": {"first": hx(a), "lat.last": hx(b), "lat.twice": hx(a + a)}})
+    return out
+
+
+def latent_plain(samples):
+    return [{"ll": s["ll"], "lp": s["lp"], "w": s["w"],
+             "kw": {".".join(k.get("t", [k.get("s")])): v for k, v in s["kw"]}} for s in samples]
+
+
 def oracle_samples(c, r):
-    """returns list of (route, message)"""
+    """returns list of (route, part, message)"""
     fails = []
     rows = c["rows"]
     exp_pl = [[hx(unhex(x)) for x in row["p"]] for row in rows]
@@ -378,92 +465,144 @@ def oracle_samples(c, r):
     # the in-memory samples are the rows of the case
     if ok(orig, "pl") != exp_pl or ok(orig, "ll") != [hx(unhex(x["ll"])) for x in rows] \
             or ok(orig, "w") != [hx(unhex(x["w"])) for x in rows] or ok(orig, "lp") != [hx(unhex(x["lp"])) for x in rows]:
-        fails.append(("memory", "Sample.from_lists does not hold the given rows: %s" % json.dumps(orig)[:300]))
+        fails.append(("memory", "values", "Sample.from_lists does not hold the given rows: %s" % json.dumps(orig)[:300]))
         return fails
     u = r["shape"]["u"]
+
+    def add(route, m):
+        if m:
+            fails.append((route, m[0], m[1]))
     # files
     if "exc" in r["csv_save"]:
-        fails.append(("csv", "save_samples raised %s" % exc_of(r, "csv_save")))
+        fails.append(("csv", exc_part(r, "csv_save"), "save_samples raised %s" % exc_of(r, "csv_save")))
     else:
         raw = ok(r, "raw")
         if raw is None:
-            fails.append(("csv", "samples.csv unreadable: %s" % exc_of(r, "raw")))
+            fails.append(("csv", "file", "samples.csv unreadable: %s" % exc_of(r, "raw")))
         else:
             exp_header = [".".join(p) for p in u] + ["log_likelihood", "log_prior", "log_posterior", "weight"]
-            exp_rows = [pl + [hx(unhex(x["ll"])), hx(unhex(x["lp"])), hx(unhex(x["ll"]) + unhex(x["lp"])), hx(unhex(x["w"]))]
-                        for pl, x in zip(exp_pl, rows)]
+            exp_vals = [[unhex(v) for v in row["p"]] + [unhex(row["ll"]), unhex(row["lp"]), unhex(row["ll"]) + unhex(row["lp"]),
+                                                       unhex(row["w"])] for row in rows]
+            exp_rows = [[hx(v) for v in vs] for vs in exp_vals]
             if raw["header"] != exp_header:
-                fails.append(("csv", "samples.csv header %s, expected %s" % (raw["header"], exp_header)))
+                fails.append(("csv", "file", "samples.csv header %s, expected %s" % (raw["header"], exp_header)))
             elif raw["rows"] != exp_rows:
-                fails.append(("csv", "samples.csv cells do not read back as the persisted floats"))
+                fails.append(("csv", "file", "samples.csv cells do not read back as the persisted floats"))
+            elif len(raw["text"]) != len(exp_vals) or any(
+                    len(tr) != len(vs) or not all(text_is(t, v) for t, v in zip(tr, vs)) for tr, vs in zip(raw["text"], exp_vals)):
+                fails.append(("csv", "file", "samples.csv cell text does not denote the persisted binary64 values: %s" % raw["text"][:2]))
             elif not raw["widths_ok"]:
-                fails.append(("csv", "samples.csv columns are not aligned"))
-        for route in ("csv", "agg"):
-            m = compare_view(orig, r[route], route)
-            if m:
-                fails.append((route, m))
+                fails.append(("csv", "file", "samples.csv columns are not aligned"))
+        for route in ("csv", "agg", "resave", "scrape"):
+            if route in r:
+                add(route, compare_view(orig, r[route], route))
+            elif route != "scrape" or c.get("scrape", True):
+                fails.append((route, "missing", "%s: route produced nothing" % route))
     if "load" in r.get("summary_orig", {}):
         pass        # the fit itself could not summarise these samples (numpy quantile on degenerate weights): nothing persisted
     elif "exc" in r.get("summary_save", {}):
-        fails.append(("summary", "save_samples_summary raised %s" % exc_of(r, "summary_save")))
+        fails.append(("summary", exc_part(r, "summary_save"), "save_samples_summary raised %s" % exc_of(r, "summary_save")))
     else:
         so = r["summary_orig"]
         # the summary describes the best sample of the rows
         k = first_argmax([unhex(x["ll"]) for x in rows])
         mx = ok(so, "max")
         if mx is None or mx["ll"] != hx(unhex(rows[k]["ll"])) or ok(so, "vmax") != exp_pl[k]:
-            fails.append(("summary", "summary's max-likelihood sample is not the best row"))
-        for route in ("summary", "summary_agg"):
-            m = compare_summary(so, r[route], route)
-            if m:
-                fails.append((route, m))
-    m = compare_view(orig, r["db_all"], "db_all")
-    if m:
-        fails.append(("db", m))
+            fails.append(("summary", "samples", "summary's max-likelihood sample is not the best row"))
+        routes = ["summary", "summary_agg", "db_summary"] + (["scrape_summary"] if "scrape" in r and "load" not in r["scrape"] else [])
+        for route in routes:
+            if route not in r:
+                if route == "db_summary" and "exc" in r.get("db_summary_save", {}):
+                    fails.append((route, exc_part(r, "db_summary_save"), "DatabasePaths.save_samples_summary raised %s" % exc_of(r, "db_summary_save")))
+                else:
+                    fails.append((route, "missing", "%s: route produced nothing" % route))
+                continue
+            for part, m in compare_summary(so, r[route], route):
+                fails.append((route, part, m))
+    # latent samples
+    if "latent_orig" in r:
+        exp = latent_expected(c, r)
+        if latent_plain(r["latent_orig"]) != exp:
+            fails.append(("latent", "values", "compute_latent_samples: %s expected %s" % (latent_plain(r["latent_orig"])[:2], exp[:2])))
+        else:
+            lc = r.get("latent_csv", {})
+            if "ok" not in lc:
+                fails.append(("latent", exc_part(r, "latent_csv"), "latent samples.csv: %s" % exc_of(r, "latent_csv")))
+            elif latent_plain(lc["ok"]) != exp:
+                fails.append(("latent", "values", "latent samples.csv reloads as %s, persisted %s" % (latent_plain(lc["ok"])[:2], exp[:2])))
+            la = r.get("latent_agg", {})
+            if "load" in la:
+                fails.append(("latent", exc_part(la, "load"), "SearchOutput.latent_samples raised %s" % exc_of(la, "load")))
+            elif latent_plain(ok(la, "samples") or []) != exp or exc_of(la, "pl") or \
+                    rows_by_col(la) != [e["kw"] for e in exp]:
+                fails.append(("latent", "values", "SearchOutput.latent_samples: %s / %s, persisted %s" % (
+                    ok(la, "samples"), la.get("pl"), exp[:2])))
+            kbest = first_argmax([unhex(x["ll"]) for x in rows])
+            for route, ref in (("db_latent", "db_latent_orig"), ("scrape_latent", None)):
+                if route not in r:
+                    if route == "db_latent" and "exc" in r.get("db_latent_save", {}):
+                        fails.append(("latent", exc_part(r, "db_latent_save"), "save_latent_samples (database) raised %s" % exc_of(r, "db_latent_save")))
+                    continue
+                got = r[route]
+                if "ok" not in got:
+                    fails.append(("latent", exc_part(r, route), "%s raised %s" % (route, exc_of(r, route))))
+                    continue
+                plain = latent_plain(got["ok"])
+                # always minimised: a sub-multiset of the latent samples that contains the best one
+                if not plain or any(x not in exp for x in plain) or exp[kbest] not in plain or len(plain) > 2:
+                    fails.append(("latent", "values", "%s holds %s, latent samples are %s" % (route, plain, exp[:3])))
+                elif ref and sorted(map(json.dumps, plain)) != sorted(map(json.dumps, latent_plain(r[ref]))):
+                    fails.append(("latent", "values", "%s differs from the minimised latent samples" % route))
+    elif not r.get("latent_error"):
+        fails.append(("latent", "missing", "no latent samples"))
+    add("db", compare_view(orig, r["db_all"], "db_all"))
     if "min_orig" not in r:
-        fails.append(("db", "minimise raised"))
+        fails.append(("db", "missing", "minimise raised"))
     else:
         mo, got = r["min_orig"], r["db_min"]
         if "load" in got:
-            fails.append(("db", "db_min: loading raised %s" % exc_of(got, "load")))
+            fails.append(("db", exc_part(got, "load"), "db_min: loading raised %s" % exc_of(got, "load")))
         else:
             k = first_argmax([unhex(x["ll"]) for x in rows])
             if k not in r["min_idx"]:
-                fails.append(("db", "minimise drops the maximum-likelihood sample"))
+                fails.append(("db", "values", "minimise drops the maximum-likelihood sample"))
             # the persisted list is list({best, best-posterior}); the same two objects give the same set order again
-            m = compare_view(mo, got, "db_min", stats=False)
-            if m:
-                fails.append(("db", m))
+            add("db", compare_view(mo, got, "db_min", stats=False))
             lls = [unhex(x["ll"]) for x in rows]
             if lls.count(max(lls)) == 1 and by_col(got, "best") != by_col(orig, "best"):
-                fails.append(("db", "db_min: best fit differs from the fit's best fit"))
+                fails.append(("db", "values", "db_min: best fit differs from the fit's best fit"))
     return fails
 
 
 def oracle_dbseq(c, r):
     m = compare_view(r["orig"], r["db_all"], "db after a second save")
-    return [("db", m)] if m else []
+    if not m:
+        return []
+    if compare_view(r["first"], r["db_all"], "first") is None:
+        return [("db", "stale-first", "db after a second save: the samples of the FIRST save are returned (%s)" % m[1][:200])]
+    return [("db", m[0], m[1])]
 
 
 def oracle_fit(c, r):
     fails = []
     if "load" in r.get("first", {}):
-        return [("fit", "first fit raised %s" % exc_of(r["first"], "load"))]
+        return [("fit", exc_part(r["first"], "load"), "first fit raised %s" % exc_of(r["first"], "load"))]
     if "load" in r.get("second", {}) and exc_of(r["second"], "load").startswith("NoSamples"):
         if c["csv"]:
-            fails.append(("fit", "re-run of the completed fit has no samples although samples.csv was requested"))
+            fails.append(("fit", "missing", "re-run of the completed fit has no samples although samples.csv was requested"))
     elif "second" in r:
         m = compare_view(r["first"], r["second"], "completed fit re-run")
         if m:
-            fails.append(("fit", m))
+            fails.append(("fit", m[0], m[1]))
     else:
-        fails.append(("fit", "missing second run"))
+        fails.append(("fit", "missing", "missing second run"))
     if "second_summary" in r:
-        m = compare_summary(r["first_summary"], r["second_summary"], "completed fit re-run summary")
-        if m:
-            fails.append(("fit", m))
+        for part, m in compare_summary(r["first_summary"], r["second_summary"], "completed fit re-run summary"):
+            fails.append(("fit", part, m))
         if r.get("second_instance") != r.get("first_instance"):
-            fails.append(("fit", "result.instance differs after re-run: %s vs %s" % (r.get("second_instance"), r.get("first_instance"))))
+            e = r.get("second_instance", {})
+            part = "exc:%s" % e["exc"] if isinstance(e, dict) and "exc" in e else "values"
+            fails.append(("fit", part, "result.instance differs after re-run: %s vs %s" % (r.get("second_instance"), r.get("first_instance"))))
     return fails
 
 
@@ -564,6 +703,46 @@ def coq_cases(c, r):
     if med is not None and ok(s, "max") is not None and ok(s, "med") is not None:
         out.append(("summary", "CSummary %s %s %s %s %s %s %s" % (
             t, rows, cfl(med), csample(ok(s, "max")), cres(s.get("vmax"), cfl), csample(ok(s, "med")), cres(s.get("vmed"), cfl))))
+    # the database's own summary: same model, same key order
+    s = r.get("db_summary", {})
+    if med is not None and ok(s, "max") is not None and ok(s, "med") is not None:
+        out.append(("db_summary", "CSummary %s %s %s %s %s %s %s" % (
+            t, rows, cfl(med), csample(ok(s, "max")), cres(s.get("vmax"), cfl), csample(ok(s, "med")), cres(s.get("vmed"), cfl))))
+    # the summary file read against a re-created model (aggregator, scrape)
+    sraw = ok(r, "summary_raw")
+    for route in ("summary_agg", "scrape_summary"):
+        v = r.get(route, {})
+        if sraw is None or "load" in v or ok(v, "shape") is None:
+            continue
+        try:
+            t2 = "(%s)" % cnode(relabel(c["tree"], ok(v, "shape")["ws"]))
+        except KeyError:
+            continue
+        for which, vec in (("max", "vmax"), ("med", "vmed")):
+            if sraw.get(which) is not None and ok(v, which) is not None:
+                j = sraw[which]
+                out.append((route, "CJsonLoad %s %s %s %s %s %s %s" % (
+                    t2, cfloat(unhex(j["ll"])), cfloat(unhex(j["lp"])), cfloat(unhex(j["w"])),
+                    clist(["(%s, %s)" % (cstr(k), cfloat(unhex(x))) for k, x in j["kw"]]),
+                    csample(ok(v, which)), cres(v.get(vec), cfl))))
+    if "resave" in r:
+        out.append(("resave", "CResave %s %s %s %s %s" % ((t, rows) + cview(r["resave"]))))
+    v = r.get("scrape", {})
+    if raw is not None and v and ("load" in v or ok(v, "shape") is not None):
+        try:
+            t2 = t if "load" in v else "(%s)" % cnode(relabel(c["tree"], ok(v, "shape")["ws"]))
+            out.append(("scrape", "CScrape %s %s %s %s %s %s" % ((t2, clist([cstr(h) for h in raw["header"]]),
+                                                             clist([cfl(x) for x in raw["rows"]])) + cview(v))))
+        except KeyError:
+            pass
+    # latent samples: a three-variable model {first, lat.last, lat.twice} built by simple_model_for_kwargs
+    la = r.get("latent_agg", {})
+    if "latent_orig" in r and la and "load" not in la:
+        lt = "(NGroup [(%s, NPrior 0%%nat); (%s, NGroup [(%s, NPrior 1%%nat); (%s, NPrior 2%%nat)])])" % (
+            cstr("first"), cstr("lat"), cstr("last"), cstr("twice"))
+        lrows = clist(["(%s, %s, %s, %s)" % (cfl([v for _, v in x["kw"]]), cfloat(unhex(x["ll"])), cfloat(unhex(x["lp"])),
+                                              cfloat(unhex(x["w"]))) for x in r["latent_orig"]])
+        out.append(("latent", "CCsv %s %s %s %s %s" % ((lt, lrows) + cview(la))))
     if "db_all" in r:
         out.append(("db", "CDb %s %s false [] %s %s %s" % ((t, rows) + cview(r["db_all"]))))
     if "db_min" in r and "min_idx" in r:
@@ -649,13 +828,14 @@ def run(ctx):
         r = r["ok"]
         fails = {"samples": oracle_samples, "dbseq": oracle_dbseq, "fit": oracle_fit}[c["kind"]](c, r)
         seen = set()
-        for route, msg in fails:
-            cl = failure_classes(c, route)
+        for route, part, msg in fails:
+            cl = failure_classes(c, route, part or "", msg)
             if tuple(cl) in seen and cl:
                 continue            # one report per finding class and case
             seen.add(tuple(cl))
             ctx.oracle["failures"] += 1
-            ctx.failure("oracle", msg[:1500], c, classes=cl, impl={"route": route})
+            ctx.hist("oracle-failure", "%s/%s%s" % (route, (part or "").split(":")[0], " (known)" if cl else ""))
+            ctx.failure("oracle", msg[:1500], c, classes=cl, impl={"route": route, "part": part})
         for route, term in coq_cases(c, r):
             terms.append(term)
             term_src.append((c, route, bool(fails)))
